@@ -90,11 +90,17 @@ func runCheck(repo, prop, tier string, opt Options, verbose bool) int {
 	}
 	var keys []string
 	for _, k := range sortedKeys(w.Contracts) {
-		if hasProp(w.Contracts[k].Props, prop) {
+		if hasProp(w.Contracts[k].Props, prop) && !w.Contracts[k].Abstract {
 			keys = append(keys, k)
 		}
 	}
-	if len(keys) == 0 {
+	var brokenKeys []string
+	for _, k := range sortedKeys(w.Broken) {
+		if hasProp(w.Broken[k].Props, prop) && !w.Broken[k].Abstract {
+			brokenKeys = append(brokenKeys, k)
+		}
+	}
+	if len(keys) == 0 && len(brokenKeys) == 0 {
 		fmt.Printf("ENGINE-ERROR: no function under contract for property %s\n", prop)
 		return 2
 	}
@@ -174,6 +180,15 @@ func runCheck(repo, prop, tier string, opt Options, verbose bool) int {
 		b, _ := json.MarshalIndent(rep, "", " ")
 		os.WriteFile(path, b, 0o644)
 		fmt.Printf("VIOLATION property=%s replay=%s%s\n", prop, path, suffix)
+	}
+	for _, k := range brokenKeys {
+		if kf := isKnown(k, "*"); kf != nil {
+			fmt.Printf("KNOWN-FINDING: property=%s %s: %s\n", prop, k, kf.Description)
+			knownRefuted = append(knownRefuted, k+"/*")
+			continue
+		}
+		total++
+		violation(k, "all-obligations", nil, "the contract of this function no longer fits the code, so none of its obligations can be discharged: "+w.BrokenWhy[k])
 	}
 	for _, r := range results {
 		isLemma := strings.HasPrefix(r.Key, "lemma:")
